@@ -168,7 +168,10 @@ type (
 	MyBytes   []byte
 	MyStrMap  map[string]string
 	MyAnyMap  map[string]interface{}
-	MyIntMap  map[string]int
+	// containers of documents (what a filter is applied to)
+	MyDocs   []map[string]interface{}
+	MyDocMap map[string]map[string]interface{}
+	MyIntMap map[string]int
 )
 
 var plainScalar = map[Kind]reflect.Type{
@@ -192,13 +195,15 @@ var ifaceType = reflect.TypeOf((*interface{})(nil)).Elem()
 
 // namedContainers maps the unnamed reflect type to its declared named twin.
 var namedContainers = map[reflect.Type]reflect.Type{
-	reflect.TypeOf([]string(nil)):               reflect.TypeOf(MyStrings(nil)),
-	reflect.TypeOf([]int(nil)):                  reflect.TypeOf(MyInts(nil)),
-	reflect.TypeOf([]interface{}(nil)):          reflect.TypeOf(MyAnys(nil)),
-	reflect.TypeOf([]byte(nil)):                 reflect.TypeOf(MyBytes(nil)),
-	reflect.TypeOf(map[string]string(nil)):      reflect.TypeOf(MyStrMap(nil)),
-	reflect.TypeOf(map[string]interface{}(nil)): reflect.TypeOf(MyAnyMap(nil)),
-	reflect.TypeOf(map[string]int(nil)):         reflect.TypeOf(MyIntMap(nil)),
+	reflect.TypeOf([]string(nil)):                          reflect.TypeOf(MyStrings(nil)),
+	reflect.TypeOf([]int(nil)):                             reflect.TypeOf(MyInts(nil)),
+	reflect.TypeOf([]interface{}(nil)):                     reflect.TypeOf(MyAnys(nil)),
+	reflect.TypeOf([]byte(nil)):                            reflect.TypeOf(MyBytes(nil)),
+	reflect.TypeOf(map[string]string(nil)):                 reflect.TypeOf(MyStrMap(nil)),
+	reflect.TypeOf(map[string]interface{}(nil)):            reflect.TypeOf(MyAnyMap(nil)),
+	reflect.TypeOf([]map[string]interface{}(nil)):          reflect.TypeOf(MyDocs(nil)),
+	reflect.TypeOf(map[string]map[string]interface{}(nil)): reflect.TypeOf(MyDocMap(nil)),
+	reflect.TypeOf(map[string]int(nil)):                    reflect.TypeOf(MyIntMap(nil)),
 }
 
 // HasNamedContainer reports whether a declared named twin exists for t.
